@@ -119,42 +119,45 @@ def sign_cases_of_path(conds, quantities):
 
 
 def check_precision(ck, rule, fn, outcomes, min_digits=21):
-    """D4: on every path, the first mpmath operation is preceded (in the same function) by a store
-    mpmath.mp.dps = K with K a literal >= min_digits (or mp.prec >= 72)."""
+    """D4: on every path, every mpmath operation (and, once a precision has been stored, every
+    arithmetic operation) runs under a precision stored in the same function as a literal
+    mp.dps >= min_digits (or mp.prec >= 72).  A later store of a non-literal / smaller value (e.g.
+    "restoring" the caller's precision) followed by more arithmetic makes the result depend on
+    the ambient setting again; restoring right before the return is fine."""
     n_paths = n_ops = 0
     for o in outcomes:
         notes = o.state.notes
-        first_op = None
-        setting = None
-        for i, nt in enumerate(notes):
-            if nt[0] == 'mp-op' and first_op is None:
-                first_op = (i, nt)
-            if nt[0] == 'ext-store' and nt[1] in ('mpmath.mp.dps', 'mpmath.mp.prec') \
-                    and setting is None:
-                setting = (i, nt)
-        n_ops += sum(1 for nt in notes if nt[0] == 'mp-op')
-        if first_op is None:
+        cur = None          # None = ambient; ('good', text) | ('bad', text)
+        bad = None
+        seen_op = False
+        for nt in notes:
+            if nt[0] == 'ext-store' and nt[1] in ('mpmath.mp.dps', 'mpmath.mp.prec'):
+                val, which = nt[2], nt[1]
+                need = min_digits if which.endswith('dps') else 72
+                if isinstance(val, Sym) and val.is_const() and val.const_value() >= need:
+                    cur = ('good', '%s = %s' % (which, val.const_value()))
+                elif isinstance(val, Sym) and val.is_const():
+                    cur = ('bad', '%s = %s gives fewer than 72 bits; exact intermediates of the '
+                                  'firmware domain need up to 2^65 with a binary fraction digit'
+                                  % (which, val.const_value()))
+                else:
+                    cur = ('bad', '%s is set to a non-literal value at line %d (the caller\'s '
+                                  'ambient precision?)' % (which, nt[3]))
+            elif nt[0] == 'mp-op':
+                n_ops += 1
+                seen_op = True
+                if cur is None and bad is None:
+                    bad = ('mpmath operation %s at line %d is not preceded by an assignment of '
+                           'mpmath.mp.dps in %s: the result depends on the caller\'s ambient '
+                           'precision' % (nt[1], nt[2], fn.name))
+                elif cur is not None and cur[0] == 'bad' and bad is None:
+                    bad = 'mpmath operation %s at line %d runs after %s' % (nt[1], nt[2], cur[1])
+            elif nt[0] == 'arith' and cur is not None and cur[0] == 'bad' and bad is None \
+                    and seen_op:
+                bad = 'arithmetic at line %d runs after %s' % (nt[2], cur[1])
+        if not seen_op:
             continue
         n_paths += 1
-        ok, msg = True, ''
-        if setting is None or setting[0] > first_op[0]:
-            ok = False
-            msg = ('mpmath operation %s at line %d is not preceded by an assignment of '
-                   'mpmath.mp.dps in %s: the result depends on the caller\'s ambient precision'
-                   % (first_op[1][1], first_op[1][2], fn.name))
-        else:
-            val = setting[1][2]
-            which = setting[1][1]
-            if not (isinstance(val, Sym) and val.is_const()):
-                ok, msg = False, 'precision is set to a non-literal value'
-            else:
-                k = val.const_value()
-                need = min_digits if which.endswith('dps') else 72
-                if k < need:
-                    ok = False
-                    msg = ('%s = %s gives fewer than 72 bits; exact intermediates of the '
-                           'firmware domain need up to 2^65 with a binary fraction digit'
-                           % (which, k))
-        ck.ob(rule, '%s::precision-before-first-mp-op' % fn.name, ok, msg, fn.loc(),
+        ck.ob(rule, '%s::precision-covers-every-mp-op' % fn.name, bad is None, bad or '', fn.loc(),
               key='%s::mp-precision' % fn.name)
     return n_paths, n_ops
